@@ -55,6 +55,15 @@ def bootstrap():
                 os.symlink(target, lp)
             except FileExistsError:
                 pass
+    # a tree under test that reached the REAL file system around a seam (reported as SEAM-LOST by the run that saw it) may
+    # have left regular files here: they must not turn later, unrelated runs into harness errors
+    for fn in os.listdir(cwd):
+        fp = os.path.join(cwd, fn)
+        if not os.path.islink(fp) and os.path.isfile(fp):
+            try:
+                os.remove(fp)
+            except OSError:
+                pass
     os.chdir(cwd)
     owner = os.getpid()
 
